@@ -6,7 +6,8 @@ Import ListNotations.
 Record case := mkcase {
   c_cfg : cfg; c_known : list N; c_ops : list op;
   c_obs : obs;             (* per call: the result Download returned, None = never returned *)
-  c_stuck : bool           (* the event loop blocked inside an apply *)
+  c_stuck : bool;          (* the event loop blocked inside an apply *)
+  c_surplus : list (N * N) (* per call: results left in its channel after it returned *)
 }.
 
 Fixpoint idx_filter (f : case -> bool) (i : N) (cs : list case) : list N :=
@@ -16,9 +17,12 @@ Fixpoint idx_filter (f : case -> bool) (i : N) (cs : list case) : list N :=
   end.
 
 Definition mismatches (cs : list case) : list N :=
-  idx_filter (fun c => negb (obs_eqb (model_obs (run (c_cfg c) (c_known c) (c_ops c)) (c_ops c)) (c_obs c)) || c_stuck c) 0%N cs.
+  idx_filter (fun c => negb (obs_eqb (model_obs (run (c_cfg c) (c_known c) (c_ops c)) (c_ops c)) (c_obs c))
+                       || negb (surplus_eqb (model_surplus (run (c_cfg c) (c_known c) (c_ops c)) (c_ops c)) (c_surplus c))
+                       || c_stuck c) 0%N cs.
 Definition violations (cs : list case) : list N :=
-  idx_filter (fun c => negb (C17_check (c_cfg c) (c_known c) (c_ops c) (c_obs c)) || c_stuck c) 0%N cs.
+  idx_filter (fun c => negb (C17_check (c_cfg c) (c_known c) (c_ops c) (c_obs c))
+                       || negb (no_surplus (c_surplus c)) || c_stuck c) 0%N cs.
 (* same evaluation against the pre-fix model (used once to confirm the defects on the unfixed tree) *)
 Definition mismatches_prefix (cs : list case) : list N :=
   idx_filter (fun c => negb (obs_eqb (model_obs (run_prefix (c_cfg c) (c_known c) (c_ops c)) (c_ops c)) (c_obs c))) 0%N cs.
